@@ -33,6 +33,69 @@ def run_group(rep, fn, *args, **kw):
     return None
 
 
+_DECLARATIVE = ('s', 'attrs', 'attributes', 'define', 'mutable', 'frozen', 'dataclass')
+_FIELD_DECL = ('ib', 'attrib', 'attr', 'field')
+_FACTORY_KW = ('factory', 'default_factory')
+
+
+def _tail_name(e):
+    if isinstance(e, ast.Call):
+        e = e.func
+    return e.attr if isinstance(e, ast.Attribute) else e.id if isinstance(e, ast.Name) else None
+
+
+def initial_fields(repo, ci):
+    """How every new instance of class ``ci`` gets its fields, read from the constructor or from the field declarations
+    of a declarative class (attrs / dataclass decorator): {field: (kind, expr, node)} with kind
+
+      'own'     ``expr`` is evaluated for every instance (``self.f = expr`` in __init__; a declared field with
+                ``factory=F`` / ``default=Factory(F)`` stands for the call ``F()``; a ``@f.default`` method for what it returns)
+      'shared'  ``expr`` is evaluated once, when the class is created, and every instance starts with that same object
+                (``f = attr.ib(default=expr)``, a plain class attribute the constructor does not assign)
+      'arg'     a declared field without default: the constructor's caller supplies it
+
+    Raises AnalysisError when the class has neither a constructor in the analysed tree nor a declarative decorator."""
+    out = {}
+    for c in reversed([c for c in repo.mro(ci) if hasattr(c, 'class_attrs') and not c.mod.external]):
+        declarative = any(_tail_name(d) in _DECLARATIVE for d in c.node.decorator_list)
+        for name, val in c.class_attrs.items():
+            if val is None:
+                continue
+            if declarative and isinstance(val, ast.Call) and _tail_name(val) in _FIELD_DECL:
+                kws = dict((k.arg, k.value) for k in val.keywords if k.arg)
+                fac = [kws[k] for k in _FACTORY_KW if k in kws]
+                dflt = kws.get('default', val.args[0] if val.args and _tail_name(val) in ('ib', 'attrib', 'attr') else None)
+                if fac:
+                    out[name] = ('own', ast.copy_location(ast.Call(func=fac[0], args=[], keywords=[]), val), val)
+                elif isinstance(dflt, ast.Call) and _tail_name(dflt) == 'Factory' and len(dflt.args) == 1 and not dflt.keywords:
+                    out[name] = ('own', ast.copy_location(ast.Call(func=dflt.args[0], args=[], keywords=[]), val), val)
+                elif dflt is not None:
+                    out[name] = ('shared', dflt, val)
+                else:
+                    out[name] = ('arg', None, val)
+            elif isinstance(val, ast.expr):
+                out[name] = ('shared', val, val)
+        if declarative:
+            # ``@<field>.default`` methods compute the default per instance
+            for m in c.methods.values():
+                for d in m.node.decorator_list:
+                    if isinstance(d, ast.Attribute) and d.attr == 'default' and isinstance(d.value, ast.Name) and d.value.id in out:
+                        rs = [r for r in ast.walk(m.node) if isinstance(r, ast.Return)]
+                        if len(rs) == 1 and rs[0].value is not None:
+                            out[d.value.id] = ('own', rs[0].value, m.node)
+    init = repo.find_method(ci, '__init__')
+    if init is not None and not init.mod.external:
+        selfname = (init.params() or ['self'])[0]
+        for s in stmts_of(init.node):
+            if isinstance(s, ast.Assign):
+                for t in s.targets:
+                    if isinstance(t, ast.Attribute) and isinstance(t.value, ast.Name) and t.value.id == selfname:
+                        out[t.attr] = ('own', s.value, s)
+    elif not any(_tail_name(d) in _DECLARATIVE for c in repo.mro(ci) if hasattr(c, 'node') and not c.mod.external for d in c.node.decorator_list):
+        raise AnalysisError('%s: neither a constructor nor declared fields found' % ci.name)
+    return out
+
+
 def none_test(t, name):
     """``name is None`` / ``None is name`` / ``name == None`` -> 'is'; the negated comparisons -> 'isnot'; else None."""
     if isinstance(t, ast.Compare) and len(t.ops) == 1:
@@ -197,11 +260,21 @@ class Defs(object):
         return out
 
 
-def _static_compare(val, other, op, fold):
-    """Outcome of ``val <op> other`` when it can be told from the two expressions alone, else _UNDECIDED."""
+def _static_compare(val, other, op, fold, ident=None):
+    """Outcome of ``val <op> other`` when it can be told from the two expressions alone, else _UNDECIDED.
+    ``ident(e)``: a token naming the object ``e`` denotes when that is one fixed object of the module (a function / class
+    defined once at module level, None), else None -- two different tokens are two different objects."""
     eq = isinstance(op, (ast.Eq, ast.Is))
     if not isinstance(op, (ast.Eq, ast.Is, ast.NotEq, ast.IsNot)):
         return _UNDECIDED
+    if ident is not None:
+        ia, ib = ident(val), ident(other)
+        if ia is not None and ib is not None:
+            kinds = set([ia[0], ib[0]])
+            if kinds == {'def'} or kinds == {'const'}:
+                return (ia == ib) if eq else (ia != ib)      # (a function object equals only itself)
+            if kinds in ({'def', 'const'}, {'obj', 'const'}):
+                return not eq                                  # a function / the result of a never-None call is not None
     if _is_simple_value(val) and not isinstance(val, ast.Constant) and norm(val) == norm(other):
         return eq
     if _is_simple_value(val) and not isinstance(val, ast.Constant):
@@ -262,7 +335,7 @@ def _between_conds(cfg, defs, name, st, node):
     return expand_conds(out)
 
 
-def refine_conds(cfg, defs, node, cs, fold, rounds=4):
+def refine_conds(cfg, defs, node, cs, fold, rounds=4, ident=None):
     """Reaching-definition refinement of path conditions.
 
     For a condition ``v <op> e`` (== / != / is / is not, v a plain local) known with polarity p at ``node``: every
@@ -292,7 +365,7 @@ def refine_conds(cfg, defs, node, cs, fold, rounds=4):
             for st, val, mid in rd:
                 if cfg._kills(val, mid) or cfg._kills(other, mid):
                     continue
-                o = _static_compare(val, other, t.ops[0], fold)
+                o = _static_compare(val, other, t.ops[0], fold, ident)
                 if o is not _UNDECIDED and o is not p:
                     ruled.setdefault(side.id, set()).add(id(st))
         # ... and a local with a single definition left stands for that definition
@@ -424,6 +497,72 @@ class DispatchView(object):
         v = self.repo.try_fold(e, self.app, _UNDECIDED)
         return v
 
+    def never_none(self, call):
+        """The call names a function of the analysed tree (clastic or the pinned third-party source) that cannot return
+        None: every way through it ends in ``return <local>`` after an attribute of that local was read or written (which
+        raises on None), the local bound once."""
+        if not (isinstance(call, ast.Call) and isinstance(call.func, ast.Name)):
+            return False
+        cache = self.__dict__.setdefault('_never_none', {})
+        if call.func.id in cache:
+            return cache[call.func.id]
+        cache[call.func.id] = res = False
+        try:
+            kind, m, fi = self.repo.resolve(self.app, call.func.id)
+            if kind == 'func' and fi is not None and not any(isinstance(n, (ast.Yield, ast.YieldFrom)) for n in walk_body(fi.node)):
+                c = cfg_of(fi)
+                rets = [s_ for s_ in stmts_of(fi.node) if isinstance(s_, ast.Return)]
+                res = bool(rets) and c.must_pass(c.nodes_of_all(rets), c.entry, c.exit, normal_only=True)
+                for r in rets:
+                    v = r.value
+                    if not isinstance(v, ast.Name) or len(assigned_value(fi.node, v.id)) != 1 or v.id in fi.params():
+                        res = False
+                        break
+                    derefs = [s_ for s_ in stmts_of(fi.node) if not isinstance(s_, (ast.If, ast.For, ast.While, ast.Try, ast.With)) and
+                              any(isinstance(n, ast.Attribute) and isinstance(n.value, ast.Name) and n.value.id == v.id for n in ast.walk(s_))]
+                    if not derefs or not c.must_pass(c.nodes_of_all(derefs), c.entry, c.nodes_of(r)):
+                        res = False
+                        break
+        except Exception:
+            res = False
+        cache[call.func.id] = res
+        return res
+
+    def ident(self, e):
+        """('def', name) for a name that denotes one fixed function / class of the module (defined once at module level,
+        never re-bound, not a local of dispatch); ('const', None) for None; ('obj', ..) for a call that cannot return None;
+        else None"""
+        if isinstance(e, ast.Constant) and e.value is None:
+            return ('const', None)
+        if isinstance(e, ast.Call):
+            if self._locals is None:
+                self.fold(e.func)
+            if isinstance(e.func, ast.Name) and e.func.id not in self._locals and self.never_none(e):
+                return ('obj', id(e))
+            return None
+        if not isinstance(e, ast.Name):
+            return None
+        if self._locals is None:
+            self.fold(e)
+        if e.id in self._locals:
+            return None
+        if getattr(self, '_top_defs', None) is None:
+            counts = {}
+            for n in ast.walk(self.app.tree):
+                k = n.id if isinstance(n, ast.Name) and isinstance(n.ctx, (ast.Store, ast.Del)) else \
+                    n.name if isinstance(n, (ast.FunctionDef, ast.AsyncFunctionDef, ast.ClassDef)) else \
+                    n.arg if isinstance(n, ast.arg) else None
+                if k is not None:
+                    counts[k] = counts.get(k, 0) + 1
+                if isinstance(n, (ast.Global, ast.Nonlocal)):
+                    for x in n.names:
+                        counts[x] = counts.get(x, 0) + 2
+                if isinstance(n, ast.alias):
+                    k2 = (n.asname or n.name).split('.')[0]
+                    counts[k2] = counts.get(k2, 0) + 1
+            self._top_defs = set(st.name for st in self.app.tree.body if isinstance(st, (ast.FunctionDef, ast.ClassDef)) and counts.get(st.name) == 1)
+        return ('def', e.id) if e.id in self._top_defs else None
+
     # -- path sensitivity over tagged outcomes -------------------------------------------------------------
     def latest_defs_from(self, name, src_nodes, node, within=None):
         """Definitions of the plain local ``name`` that can be the most recent one when control arrives at ``node`` from
@@ -483,16 +622,26 @@ class DispatchView(object):
             if nd.kind != 'branch' or nd.id not in reach:
                 continue
             for t, p in expand_conds([(nd.test, nd.pol)]):
-                if not (isinstance(t, ast.Compare) and len(t.ops) == 1 and isinstance(t.ops[0], (ast.Eq, ast.NotEq))):
+                if not (isinstance(t, ast.Compare) and len(t.ops) == 1 and isinstance(t.ops[0], (ast.Eq, ast.NotEq, ast.Is, ast.IsNot))):
                     continue
                 for side, other in ((t.left, t.comparators[0]), (t.comparators[0], t.left)):
                     if not isinstance(side, ast.Name):
                         continue
                     c2 = const(other)
+                    if isinstance(t.ops[0], (ast.Is, ast.IsNot)):
+                        # identity with None / a module-level function: decided from the definitions' expressions
+                        cands = self.latest_defs_from(side.id, src_nodes, nd.id) if self.ident(other) is not None else None
+                        if cands and all(_static_compare(val, other, t.ops[0], self.fold, self.ident) is (not p) for st, val in cands):
+                            out.add(nd.id)
+                        continue
                     if c2 is _UNDECIDED:
                         continue
                     cands = self.latest_defs_from(side.id, src_nodes, nd.id)
                     if not cands:
+                        continue
+                    decided = [_static_compare(val, other, t.ops[0], self.fold, self.ident) for st, val in cands]
+                    if all(o is not _UNDECIDED and o is (not p) for o in decided):
+                        out.add(nd.id)
                         continue
                     outcomes = []
                     for st, val in cands:
@@ -505,6 +654,89 @@ class DispatchView(object):
                     if all(o is (not p) for o in outcomes):
                         out.add(nd.id)
         return out
+
+    # -- boolean flags -------------------------------------------------------------------------------------
+    def flag_names(self):
+        """Plain locals of dispatch that are bound only by ``name = True`` / ``name = False`` statements (the shape a
+        predicate with several ``return True`` / ``return False`` exits takes once it is inlined, or a hand-written flag)."""
+        if getattr(self, '_flags', None) is None:
+            self._flags = set()
+            names = set(n.id for n in walk_body(self.fi.node) if isinstance(n, ast.Name) and isinstance(n.ctx, ast.Store))
+            for name in names:
+                ds, clean = self.defs.of(name)
+                if clean and ds and all(isinstance(self.defs.value_of(name, st), ast.Constant) and
+                                        isinstance(self.defs.value_of(name, st).value, bool) for st, ids in ds):
+                    self._flags.add(name)
+        return self._flags
+
+    def reach_f(self, srcs, avoid=(), include_src=True, normal_only=False):
+        """``cfg.reach`` that does not take a branch contradicting the value a boolean flag is known to have: ways through
+        ``flag = True`` ... ``if flag:`` continue on the true side only.  The value of each flag (true / false / not known)
+        is carried along every way; it is not known at the sources, set by the flag's bindings and learnt from the
+        branches taken on the flag.  Without flags this is ``cfg.reach``."""
+        from ..cfg import expand_conds
+        cfg, flags = self.cfg, self.flag_names()
+        if not flags:
+            return cfg.reach(srcs, avoid=avoid, include_src=include_src, normal_only=normal_only)
+        avoid = set(avoid)
+        binds, tests = {}, {}
+        for nd in cfg.nodes:
+            if nd.kind == 'stmt' and isinstance(nd.stmt, ast.Assign):
+                for name in flags:
+                    v = self.defs.value_of(name, nd.stmt) if any(name in names_stored(t) for t in nd.stmt.targets) else None
+                    if isinstance(v, ast.Constant):
+                        binds.setdefault(nd.id, []).append((name, bool(v.value)))
+            elif nd.kind == 'branch':
+                for t, p in expand_conds([(nd.test, nd.pol)]):
+                    if isinstance(t, ast.Name) and t.id in flags:
+                        tests.setdefault(nd.id, []).append((t.id, p))
+
+        def enter(m, env):
+            """the flag values after node ``m`` ran, None when ``m`` cannot be entered with ``env``"""
+            if m in tests:
+                env = dict(env)
+                for name, p in tests[m]:
+                    if env.get(name, p) is not p:
+                        return None
+                    env[name] = p
+                return frozenset(env.items())
+            if m in binds:
+                env = dict(env)
+                env.update(binds[m])
+                return frozenset(env.items())
+            return env if isinstance(env, frozenset) else frozenset(env.items())
+        seen_states, seen = set(), set()
+        todo = []
+        for s_ in srcs:
+            if s_ in avoid:
+                continue
+            e0 = frozenset(binds.get(s_, []) + tests.get(s_, []))
+            todo.append((s_, e0))
+            seen_states.add((s_, e0))
+            if include_src:
+                seen.add(s_)
+        while todo:
+            n, env = todo.pop()
+            for m in cfg.succ[n]:
+                if m in avoid:
+                    continue
+                if normal_only and (n, m) in cfg.exc_edges and n not in cfg.raise_nodes:
+                    continue
+                e2 = enter(m, dict(env))
+                if e2 is None or (m, e2) in seen_states:
+                    continue
+                seen_states.add((m, e2))
+                seen.add(m)
+                todo.append((m, e2))
+        return seen
+
+    def must_pass_f(self, through, src, dst, normal_only=False):
+        """``cfg.must_pass`` over the ways ``reach_f`` follows"""
+        srcs = src if isinstance(src, (list, set, tuple)) else [src]
+        dsts = dst if isinstance(dst, (list, set, tuple)) else [dst]
+        through = set(through)
+        r = self.reach_f(list(srcs), avoid=through, normal_only=normal_only)
+        return not any(d in r for d in dsts if d not in through)
 
     def value_at(self, name, at):
         """The definitions of the plain local ``name`` whose value can be read at statement ``at``: the reaching
@@ -570,7 +802,7 @@ class DispatchView(object):
         for n in self.cfg.nodes_of(st):
             if not self.cfg.reachable(n):
                 continue
-            cs = refine_conds(self.cfg, self.defs, n, self.cfg.conds_at(n), self.fold)
+            cs = refine_conds(self.cfg, self.defs, n, self.cfg.conds_at(n), self.fold, ident=self.ident)
             keyed = dict(((norm(t), p), (t, p)) for t, p in cs)
             res = keyed if res is None else dict((k, v) for k, v in res.items() if k in keyed)
         return list((res or {}).values())
@@ -587,7 +819,7 @@ class DispatchView(object):
         cs = self.cfg._expand_named(cs, nid)
         if full:
             cs = self.cfg.conds_at(nid) + cs
-        res = self._bc[key] = refine_conds(self.cfg, self.defs, nid, cs, self.fold)
+        res = self._bc[key] = refine_conds(self.cfg, self.defs, nid, cs, self.fold, ident=self.ident)
         return res
 
     # -- predicates on condition tests -------------------------------------------------------------------
@@ -635,3 +867,110 @@ class DispatchView(object):
             if isinstance(c, ast.Call) and call_tail(c) == tail and (recv is None or norm(c.func.value) == recv):
                 out.append(stmt_of(self.app, c))
         return out
+
+
+# ------------------------------------------------------------------------------------------ a route's method set is fixed
+METHOD_SET_WRITERS = {(ROUTE, 'Route.__init__'): ('store', 'mutcall'),      # the set is built (upper-cased, HEAD added) while the route is constructed
+                      (ROUTE, 'BoundRoute.__init__'): ('store',)}          # a binding takes the route's set
+
+
+def _object_written(fnode, e):
+    """the expression naming the object an effect changes: subscripts stripped, single-definition locals followed
+    (``ms = route.methods; ms.add(x)`` changes route.methods)"""
+    t = e.target
+    while isinstance(t, ast.Subscript):
+        t = t.value
+    return resolve_local(fnode, t)
+
+
+def check_method_sets_stable(rep, rule):
+    """``route.match_method`` reads the set the route was declared with (a binding shares it: BoundRoute.methods is
+    Route.methods).  "Which methods does this route admit" has one answer for every request only if nothing changes such a
+    set after set-up:
+
+      * the only writers of any ``.methods`` in the package are the constructors of Route (building the set) and
+        BoundRoute (taking the route's set); nothing stores to / mutates ``<x>.methods`` anywhere else, directly or
+        through a local naming it;
+      * where dispatch hands ``route.methods`` to the dispatch state (for the 405's Allow), the receiving method does not
+        change the object it was handed, and does not keep it in a field that is updated in place (it unions it into a
+        container of its own): otherwise recording the methods of one request rewrites the route's own set."""
+    from .. import effects
+    repo = rep.repo
+    app = repo.mod(APP)
+    n_writers = 0
+    for m in repo.all_internal_modules():
+        for fi in m.functions.values():
+            for e in effects.effects_in(fi.node, aug_names=True):
+                if e.kind == 'augname':
+                    if effects.aug_rebinds(e.node):
+                        continue
+                    obj = resolve_local(fi.node, e.target)
+                    if obj is e.target:
+                        continue          # a local of its own (or a parameter: judged at the hand-over below)
+                else:
+                    obj = _object_written(fi.node, e)
+                if not (isinstance(obj, ast.Attribute) and obj.attr == 'methods'):
+                    continue
+                n_writers += 1
+                ok = e.kind in METHOD_SET_WRITERS.get((m.name, fi.qualname), ()) and norm(obj.value) == 'self'
+                rep.check(rule, 'method set writer::%s::%s' % (fi.key, norm(e.node)[:70]), ok,
+                          'set-up of a route\'s method set (while the route / its binding is constructed)' if ok else
+                          '%s changes a route\'s method set after set-up (%s): which methods the route admits -- and so whether it '
+                          'answers, redirects or is skipped for a request -- then depends on earlier requests' % (fi.key, short(e.node)), m, e.node)
+    if n_writers < 2:
+        raise AnalysisError('the set-up writers of Route.methods / BoundRoute.methods were not found (%d)' % n_writers)
+    # the hand-over to the dispatch state
+    dv = DispatchView(repo)
+    dsc = app.cls('DispatchState')
+    handed = []
+    for c in walk_body(dv.fi.node):
+        if not isinstance(c, ast.Call):
+            continue
+        for i, a in enumerate(c.args):
+            if norm(dv.resolve(a)) == '%s.methods' % dv.route_var:
+                handed.append((c, i, None))
+        for k in c.keywords:
+            if k.arg is not None and norm(dv.resolve(k.value)) == '%s.methods' % dv.route_var:
+                handed.append((c, None, k.arg))
+    touched = set()       # fields of the dispatch state the receiving methods work on
+    for c, pos, kwname in handed:
+        f = c.func
+        callee = None
+        if isinstance(f, ast.Attribute) and norm(f.value) == dv.ds_var:
+            callee = repo.find_method(dsc, f.attr)
+        if callee is None or callee.mod.external:
+            if isinstance(f, ast.Name) and f.id in ('sorted', 'list', 'set', 'frozenset', 'tuple', 'len', 'bool', 'repr', 'str'):
+                continue          # copies / reads
+            raise AnalysisError('dispatch hands %s.methods to %s, which is not followed' % (dv.route_var, norm(f)))
+        ps = callee.params()[1:]
+        touched |= set(n.attr for n in walk_body(callee.node) if isinstance(n, ast.Attribute) and isinstance(n.value, ast.Name) and
+                       n.value.id == callee.params()[0])
+        prm = kwname if kwname in ps else ps[pos] if pos is not None and pos < len(ps) else None
+        if prm is None:
+            raise AnalysisError('%s: the parameter receiving route.methods was not found' % callee.qualname)
+        bad = []
+        for e in effects.effects_in(callee.node, aug_names=True):
+            if e.kind == 'augname':
+                if not effects.aug_rebinds(e.node) and norm(resolve_local(callee.node, e.target)) == prm and \
+                        not (effects.known_immutable(callee, e.target)):
+                    bad.append(e)
+                continue
+            if norm(_object_written(callee.node, e)) == prm:
+                bad.append(e)
+        rebound = any(isinstance(n, ast.Name) and n.id == prm and isinstance(n.ctx, ast.Store) for n in walk_body(callee.node))
+        ok = not bad and not rebound
+        rep.check(rule, '%s::%s::receives route.methods' % (APP, callee.qualname), ok,
+                  '%s only reads the method set it is handed' % callee.qualname if ok else
+                  '%s changes the object it is handed (%s) -- the route\'s own method set: the route admits other methods from then on'
+                  % (callee.qualname, '; '.join(short(e.node) for e in bad) or 'parameter re-bound'), callee.mod, bad[0].node if bad else callee.node)
+    if not handed:
+        raise AnalysisError('dispatch does not hand route.methods to the dispatch state (nothing to follow)')
+    from .noninterf import RequestPath
+    fam = [dsc] + repo.subclasses(dsc, [app])
+    for ci, m_, field, st_, fresh in RequestPath(repo).field_freshness():
+        if any(ci is c_ for c_ in fam) and field in touched:
+            rep.check(rule, '%s::%s::self.%s = %s' % (APP, m_.qualname, field, norm(st_.value)[:50]), fresh,
+                      'DispatchState.%s is its own freshly allocated container' % field if fresh else
+                      'DispatchState.%s adopts %s and then updates it in place: recording the methods of the routes that refused one request '
+                      'rewrites a route\'s own method set, so the route admits (and slash-redirects) other methods for all later requests'
+                      % (field, short(st_.value)), app, st_)
